@@ -19,14 +19,8 @@ gcc -O1 -I$WT/include -I$B/include $D/demo.c $B/lib/librelic_s.a -lcrypto -lgmp 
 /tmp/seed_demo >/tmp/seed_demo0.log 2>&1; R0=$?
 log "tests pass with patch: $TP ; demo rc with patch: $R1 ; demo rc without: $R0"
 if [ $TP != 1 ] || [ $R1 = 0 ] || [ $R0 != 0 ]; then log "NOT CONFIRMED"; exit 2; fi
-# run the check on /repo with the patch
-cd /repo && git diff --quiet || { log "/repo is dirty, abort"; exit 3; }
-git apply $D/patch.diff || { log "patch does not apply to /repo HEAD"; exit 4; }
-cd /verif && python3 check.py $PROP --tier quick > /tmp/seed_check.log 2>&1; RC=$?
-git -C /repo checkout -- .
-V=$(grep -c "^VIOLATION" /tmp/seed_check.log)
-log "check $PROP rc=$RC violations=$V"
-grep "violation:\|crash:" /tmp/seed_check.log | cut -c1-220 | head -5
+# store, then run the check against a scratch worktree of /repo HEAD + patch (seedrun.sh; /repo itself stays untouched)
+RC=-1; V=0
 mkdir -p /verif/seeded/$NAME && cp $D/patch.diff $D/demo.c /verif/seeded/$NAME/ && cp $D/notes.txt /verif/seeded/$NAME/notes.txt 2>/dev/null
 python3 - <<PY
 import json
@@ -34,3 +28,4 @@ json.dump({"property":"$PROP","seed":"$NAME","needs_to_manifest":open("$D/notes.
  "confirmed":{"tests_run":"$TESTS","tests_pass_with_patch":True,"demo_fails_with_patch":True,"demo_passes_without":True},
  "check_run":"python3 check.py $PROP --tier quick","check_exit":$RC,"violations_reported":$V,"detected":$RC==1 and $V>0}, open("/verif/seeded/$NAME/meta.json","w"), indent=1)
 PY
+bash /verif/seedrun.sh $PROP $NAME
